@@ -64,29 +64,29 @@ ALL_OPS = ("set_many_dup", "get_many_dup", "delete_many_dup", "set", "add", "rep
 def shards(tier):
     S = []
     if tier == "thorough":
-        # every operation on Client and on HashClient(2 servers); the multi-command and dup-key operations on the pooled
-        # stacks as well (the full 6-stack x 27-operation grid needs ~16 CPU-hours and was cut down)
+        # every operation on Client; the multi-command / dup-key / cas / quit operations on five further stacks (the full
+        # 6-stack x 27-operation grid with 5 cut positions needs ~16 CPU-hours and was cut down to what fits an hour)
         multi = ("set_many", "set_many_dup", "get_many", "get_many_dup", "delete_many", "delete_many_dup", "cas", "quit")
         for st in ("client", "hash2", "pooled1", "pooled2", "hash1", "hash1p"):
             for op in ALL_OPS:
                 if st.startswith("hash") and op in ops.NOT_ON_HASH:
                     continue
-                if st not in ("client", "hash2") and op not in multi:
+                if st != "client" and op not in multi:
                     continue
                 S.append(dict(fn="h_calls", timeout=900, shard=dict(
-                    stack=st, op1=op, follow=("get", "gets", "set", "delete_many", "incr", "get_many"),
-                    cuts=(0, 1, 7) if st != "client" else (0, 1, 2, 7, 9), depth=2)))
+                    stack=st, op1=op, follow=("get", "set", "delete_many", "incr") if st == "client" else ("get", "set"),
+                    cuts=(0, 1, 7), depth=2)))
         for st in ("client", "pooled1", "hash1"):
             for op in ("get", "gets", "get_many", "gets_many", "gat", "gats", "stats"):
-                S.append(dict(fn="h_calls", timeout=1500, shard=dict(stack=st, op1=op, follow=("get", "set", "get_many"),
-                                                                     cuts=(0, 1, 7), depth=2, ignore_exc=True)))
-        for op in ("set_many", "get_many", "delete_many", "set", "get"):
-            S.append(dict(fn="h_calls", timeout=2400, shard=dict(stack="client", op1=op, follow=("get", "set", "delete_many"),
-                                                                 cuts=(0, 1), depth=3)))
+                S.append(dict(fn="h_calls", timeout=900, shard=dict(stack=st, op1=op, follow=("get", "set"),
+                                                                    cuts=(0, 7), depth=2, ignore_exc=True)))
+        for op in ("set_many", "get_many", "set"):
             S.append(dict(fn="h_calls", timeout=1500, shard=dict(stack="client", op1=op, follow=("get", "set"),
-                                                                 cuts=(0, 2), depth=2, recv=4, maxf=20)))
-            S.append(dict(fn="h_calls", timeout=1500, shard=dict(stack="client", op1=op, follow=("get", "set", "delete_many"),
-                                                                 cuts=(0, 1, 7), depth=2, default_noreply=False)))
+                                                                 cuts=(0,), depth=3)))
+            S.append(dict(fn="h_calls", timeout=900, shard=dict(stack="client", op1=op, follow=("get", "set"),
+                                                                cuts=(0, 2), depth=2, recv=4, maxf=20)))
+            S.append(dict(fn="h_calls", timeout=900, shard=dict(stack="client", op1=op, follow=("get", "set"),
+                                                                cuts=(0, 7), depth=2, default_noreply=False)))
         return S
     plan = (("client", ("set", "set_many_dup", "cas", "get", "get_many", "delete_many", "incr", "flush_all")),
             ("pooled1", ("set_many", "get_many_dup", "delete_many_dup")),
@@ -110,9 +110,9 @@ BOUNDS = {
              "{default, True, False}; one fault, symbolic position over every connect/sendall/recv of the history and "
              "symbolic kind over {timeout, reset, EOF, OSError, ERROR, CLIENT_ERROR, SERVER_ERROR, unparseable line, "
              "truncated reply + EOF}; one cut of the reply stream at offset 7 or none (symbolic)",
-    "thorough": "all operations on Client (cuts {none,1,2,7,9}) and HashClient(2 servers), the multi-command / dup-key / cas / quit "
-                "operations on 4 further stacks, follow-up among 6 operations; 3-call histories, "
-                "receive size 4 and default_noreply=False for the multi-command operations on Client",
+    "thorough": "all operations on Client (cuts {none,1,7}, follow-up among 4 operations), the multi-command / dup-key / "
+                "cas / quit operations on 5 further stacks, ignore_exc=True for 7 read operations on 3 stacks; 3-call "
+                "histories, receive size 4 and default_noreply=False for set_many / get_many / set on Client",
 }
 OUTSIDE = ("two faults in one history; histories longer than 3 calls; raw_command (C03), quit/shutdown; values other than "
            "the concrete 2-byte ones; BaseException interruptions (C10)")
